@@ -135,6 +135,11 @@ func c01Stats(cases []string) map[string]int {
 	for k, v := range pipeStats(pipe) {
 		st[k] = v
 	}
+	steerMu.Lock()
+	for k, v := range steerCounts { // what the schedule steering of the traced runs did in this process
+		st[k] += v
+	}
+	steerMu.Unlock()
 	return st
 }
 
